@@ -304,5 +304,36 @@ func StaleString() {
 	vstub.Reach("StaleString")
 }
 
+// StaleString2: a string read that fails part-way, on a reader that has
+// already delivered an earlier (longer) string: what it returns does not
+// depend on the bytes of the earlier string.
+func StaleString2() {
+	n := vstub.Choose(1, 3)
+	k := vstub.Choose(0, n-1)
+	tail := vstub.NondetBytes(k)
+	errv := vstub.NondetErr()
+	run := func(prior []byte) (string, error) {
+		data := append([]byte{3, 0, 0, 0}, prior...)
+		data = append(data, byte(n), 0, 0, 0)
+		data = append(data, tail...)
+		fr := vstub.NewFragReader(data)
+		fr.Full = true
+		fr.FailAt = len(data)
+		fr.Err = errv
+		r := iohelp.NewErrorReader(fr)
+		_ = iohelp.ReadString(r)
+		got := iohelp.ReadString(r)
+		return got, r.Err
+	}
+	a, ea := run(vstub.NondetBytes(3))
+	b, eb := run(vstub.NondetBytes(3))
+	vstub.Assert("String.stale2.err", vstub.And(ea != nil, eb != nil))
+	vstub.Assert("String.stale2.len", len(a) == len(b))
+	if len(a) == len(b) {
+		vstub.Assert("String.stale2.bytes", a == b)
+	}
+	vstub.Reach("StaleString2")
+}
+
 // Hand lists the hand-written harness entry points and the reach markers each must witness.
-var Hand = []string{"BytesBool", "StreamBool", "StaleBool", "BytesGUID", "StreamGUID", "StaleGUID", "BytesDate", "StreamDate", "StaleDate", "StringBytes", "StringStream", "StaleString"}
+var Hand = []string{"BytesBool", "StreamBool", "StaleBool", "BytesGUID", "StreamGUID", "StaleGUID", "BytesDate", "StreamDate", "StaleDate", "StringBytes", "StringStream", "StaleString", "StaleString2"}
